@@ -28,7 +28,7 @@ def meq(a, b):
     return a == b
 
 
-class Timeout(Exception):
+class Timeout(BaseException):  # not an Exception: the reader converts stray Exceptions into LexException
     pass
 
 
